@@ -80,6 +80,12 @@ impl Outcome {
             self.classes.push(c.to_string());
         }
     }
+    /// prefix the message of a failure with the mode it was seen in
+    pub fn note_mode(&mut self, note: &str) {
+        if let Verdict::Fail { msg, .. } = &mut self.verdict {
+            *msg = format!("[{}] {}", note, msg);
+        }
+    }
     pub fn is_fail(&self) -> bool {
         matches!(self.verdict, Verdict::Fail { .. })
     }
